@@ -728,8 +728,13 @@ def note_failure(ctx, pid, label, fn_name, tid, obs, m):
     if isinstance(obs.exc, (ValueError, NotImplementedError)):
         ctx.count("calls_rejected")
         return
-    ctx.violation(f"{pid}/{label}/{fn_name}/no-result/{cls}", {"kind": "event", "event": obs.event, "meta": m},
-                  f"{tid}: the call raised {cls}: {obs.exc}", subcheck=label)
+    # an internal error (AssertionError, LibraryError, ...) is C35's subject, not this property's: the statement
+    # speaks about calls that return.  It is counted and listed in the evidence; `require_results` makes the
+    # check fail as machinery (exit 2) if most driver calls fail, so that nothing is claimed vacuously.
+    # (VERIF_SEED=7 drew a corpus input that hits the open C35 finding F16 "Use fewer rescaling intervals";
+    # reporting it here was a false alarm for C02 / C04 / C33.)
+    ctx.count("calls_raised_internal_error")
+    ctx.extra.setdefault("internal_errors", {})[f"{fn_name}/{cls}"] = str(obs.exc)[:120]
 
 
 def require_results(ctx, events, frac=0.5):
